@@ -1585,6 +1585,13 @@ impl TestTextSelection for TextSelectionSet {
                         return false;
                     }
                 }
+                //and the other way round (a set may hold an item twice, so equal lengths
+                //do not make the inclusion mutual)
+                for item in refset.iter() {
+                    if !item.test_set(operator, self, resource) {
+                        return false;
+                    }
+                }
                 true
             }
             TextSelectionOperator::Overlaps {
